@@ -57,19 +57,29 @@ func VerifC11Select() {
 	hasOff, hasLim := nd.Choice(2) == 1, nd.Choice(2) == 1
 	o, n := 0, 0
 	src := "{% for x in a"
-	if reversed {
-		src += " reversed"
-	}
 	b := Bindings{"a": c11Collection(rep, l)}
+	mods := []string{"", "", ""} // reversed, offset, limit
+	if reversed {
+		mods[0] = " reversed"
+	}
 	if hasOff {
 		o = nd.Int()
-		src += " offset: o"
+		mods[1] = " offset: o"
 		b["o"] = o
 	}
 	if hasLim {
 		n = nd.Int()
-		src += " limit: n"
+		mods[2] = " limit: n"
 		b["n"] = n
+	}
+	// the modifiers mean the same in whatever order they are written
+	switch nd.Choice(3) {
+	case 0:
+		src += mods[0] + mods[1] + mods[2]
+	case 1:
+		src += mods[2] + mods[1] + mods[0]
+	case 2:
+		src += mods[1] + mods[0] + mods[2]
 	}
 	src += " %}" + c11Body + "{% else %}E{% endfor %}"
 	out, err := vRender(src, b)
@@ -327,6 +337,25 @@ func VerifC11Tablerow() {
 		}
 		nd.Assert(out == want, "tablerow-reference")
 	}
+	// long rows and many rows: column and row numbers of two digits and more
+	wide := nd.Choice(2) == 1
+	src2, n2, c2 := "{% tablerow x in (1..12) %}{{x}}{% endtablerow %}", 12, 12
+	if !wide {
+		src2, n2, c2 = "{% tablerow x in (1..11) cols: 1 %}{{x}}{% endtablerow %}", 11, 1
+	}
+	out2, err2 := vRender(src2, Bindings{})
+	want2 := ""
+	for i := 0; i < n2; i++ {
+		row, col := i/c2, i%c2
+		if col == 0 {
+			want2 += `<tr class="row` + vItoa(row+1) + `">`
+		}
+		want2 += `<td class="col` + vItoa(col+1) + `">` + vItoa(i+1) + `</td>`
+		if (i+1)%c2 == 0 || i+1 == n2 {
+			want2 += `</tr>`
+		}
+	}
+	nd.Assert(err2 == nil && out2 == want2, "tablerow-two-digit-rows-and-columns")
 	nd.Reach("C11.tablerow")
 }
 
